@@ -42,7 +42,7 @@ class C16(Check):
     real = ['rxsci.compression.z / zstd compress() and decompress() (current working tree)', 'zlib, zstandard (C libraries)', 'RxPY Subject/pipe']
     stubs = ['producer of the chunks', 'transport re-cutting / truncating the compressed bytes', 'final subscriber']
     assumptions = ['reference decoders (gzip module, zstandard stream reader) are trusted']
-    probe_names = ('codec:gzip', 'codec:zstd', 'empty_list', 'empty_chunk_in', 'empty_segment', 'empty_segment_after_end', 'one_byte_segments',
+    probe_names = ('one_chunk_inflates>1MiB', 'codec:gzip', 'codec:zstd', 'empty_list', 'empty_chunk_in', 'empty_segment', 'empty_segment_after_end', 'one_byte_segments',
                    'incompressible', 'input>=64KiB', 'truncations_all_offsets', 'swept_all_single_cuts')
     quick_budget = 20.0
     quick_cap = 100000
@@ -50,12 +50,12 @@ class C16(Check):
     def gen(self, rng, tier):
         codec = rng.choice(['gzip', 'zstd'])
         n = rng.choice([0, 1, 1, 2, 3, 5])
-        big = tier != 'quick' and rng.random() < 0.25
+        big = rng.random() < (0.04 if tier == 'quick' else 0.25)     # inputs crossing the codecs' internal buffer sizes
         chunks = []
         for _ in range(n):
             kind = rng.choice(['zeros', 'text', 'rand'])
             if big:
-                size = rng.choice([0, 1000, 70000, 140000, 400000])
+                size = rng.choice([0, 1000, 70000, 140000, 400000, 1100000 if kind != 'rand' else 70000, 3000000 if kind != 'rand' else 1000])
             else:
                 size = rng.choice([0, 0, 1, 5, 50, 300, 3000, 20000 if rng.random() < 0.2 else 100, 70000 if rng.random() < 0.15 else 7])
             chunks.append({'kind': kind, 'n': size, 'seed': rng.randrange(1000)})
@@ -65,7 +65,7 @@ class C16(Check):
 
     def valid(self, case):
         try:
-            return case['codec'] in ('gzip', 'zstd') and all(c['kind'] in ('zeros', 'text', 'rand') and 0 <= c['n'] <= 500000 for c in case['chunks']) \
+            return case['codec'] in ('gzip', 'zstd') and all(c['kind'] in ('zeros', 'text', 'rand') and 0 <= c['n'] <= 4000000 for c in case['chunks']) \
                 and (case.get('cuts') is None or all(isinstance(c, int) and c >= 0 for c in case['cuts']))
         except (KeyError, TypeError):
             return False
@@ -158,6 +158,8 @@ class C16(Check):
             p['incompressible'] += 1
         if len(plain) >= 65536:
             p['input>=64KiB'] += 1
+        if len(plain) > 1048576 and n < 65536:
+            p['one_chunk_inflates>1MiB'] += 1
         return out
 
     def extra_candidates(self, case):
